@@ -102,6 +102,7 @@ func stubAtomic(e *Exec, st *State, fn *Func, args []Value, site string) []Outco
 		return e.conc.atomicOp(e, st, cell, method, args[1:], toCell, fromCell, site)
 	}
 	old := e.load(st, cell)
+	e.ghostLog(st, "atomic", StrConst(fmt.Sprintf("%s@%d%s", method, cell.Obj, cell.Path)))
 	switch method {
 	case "Load":
 		return ret(st, fromCell(old))
@@ -283,11 +284,8 @@ func initStubs() {
 		id := args[0].(*Term).S
 		c := args[1].(*Term)
 		e.addOblig(&Obligation{ID: id, Kind: "assert", PC: st.PCTerm(), Cond: c, Site: site})
-		// continue under the assumption that it held (later assertions are checked given earlier ones)
-		if c.IsFalse() {
-			return nil
-		}
-		st.Assume(c)
+		// the path continues WITHOUT assuming the condition (keeps path conditions small; every
+		// obligation is decided on its own)
 		return ret(st)
 	}
 	stubTable[zzp+"Check"] = func(e *Exec, st *State, fn *Func, args []Value, site string) []Outcome {
@@ -365,6 +363,9 @@ func initStubs() {
 		e.unroll = int(n)
 		return ret(st)
 	}
+	stubTable[zzp+"Thorough"] = func(e *Exec, st *State, fn *Func, args []Value, site string) []Outcome {
+		return ret(st, BoolConst(e.cfg["tier"] == "thorough"))
+	}
 	stubTable[zzp+"Symbolic"] = func(e *Exec, st *State, fn *Func, args []Value, site string) []Outcome {
 		return ret(st, True)
 	}
@@ -380,6 +381,60 @@ func initStubs() {
 		return ret(st)
 	}
 
+	stubTable[zzp+"GhostLen"] = func(e *Exec, st *State, fn *Func, args []Value, site string) []Outcome {
+		l, _ := st.Ghost["log:"+args[0].(*Term).S].(*Struct)
+		if l == nil {
+			return ret(st, BVConst(0, 64))
+		}
+		return ret(st, BVConst(uint64(len(l.F)), 64))
+	}
+	stubTable[zzp+"GhostReset"] = func(e *Exec, st *State, fn *Func, args []Value, site string) []Outcome {
+		if st.Ghost != nil {
+			delete(st.Ghost, "log:"+args[0].(*Term).S)
+		}
+		return ret(st)
+	}
+	// GhostCount(name, prefix): number of entries of the ghost log whose text starts with prefix
+	stubTable[zzp+"GhostCount"] = func(e *Exec, st *State, fn *Func, args []Value, site string) []Outcome {
+		l, _ := st.Ghost["log:"+args[0].(*Term).S].(*Struct)
+		n := 0
+		if l != nil {
+			for _, v := range l.F {
+				if t, ok := v.(*Term); ok && t.IsConst() && strings.HasPrefix(t.S, args[1].(*Term).S) {
+					n++
+				}
+			}
+		}
+		return ret(st, BVConst(uint64(n), 64))
+	}
+	closureCell := func(e *Exec, st *State, args []Value) Ptr {
+		iv := args[0].(Iface)
+		f, ok := iv.V.(*Func)
+		if !ok || f == nil || f.Fn == nil {
+			fail("ClosureVar: not a closure")
+		}
+		name := args[1].(*Term).S
+		for i, fv := range f.Fn.FreeVars {
+			if fv.Name() == name {
+				p, ok := f.Free[i].(Ptr)
+				if !ok {
+					fail("ClosureVar: %s is not captured by reference", name)
+				}
+				return p
+			}
+		}
+		fail("ClosureVar: closure %s has no captured variable %s", f.Fn.Name(), name)
+		return Ptr{}
+	}
+	stubTable[zzp+"SetClosureInt"] = func(e *Exec, st *State, fn *Func, args []Value, site string) []Outcome {
+		e.store(st, closureCell(e, st, args), args[2])
+		return ret(st)
+	}
+	stubTable[zzp+"GetClosureInt"] = func(e *Exec, st *State, fn *Func, args []Value, site string) []Outcome {
+		return ret(st, e.load(st, closureCell(e, st, args)))
+	}
+	stubTable[zzp+"SetClosureFloat"] = stubTable[zzp+"SetClosureInt"]
+	stubTable[zzp+"GetClosureFloat"] = stubTable[zzp+"GetClosureInt"]
 	// ---- runtime / misc stdlib ----
 	stubTable["runtime/debug.Stack"] = func(e *Exec, st *State, fn *Func, args []Value, site string) []Outcome {
 		return ret(st, Slice{})
@@ -556,6 +611,9 @@ func (e *Exec) clockRead(st *State, kind string) *Term {
 
 // ghostLog appends a value to a named ghost list (readable by harnesses through zzverif.GhostLen etc.)
 func (e *Exec) ghostLog(st *State, name string, v Value) {
+	if e.cfg["ghostlog"] == "" {
+		return // ghost logs are opt-in (//verif:ghostlog 1): differing log lengths prevent state merging
+	}
 	if st.Ghost == nil {
 		st.Ghost = map[string]Value{}
 	}
